@@ -43,7 +43,7 @@ func selftestGen(o hreg.Opts, w *bufio.Writer) error {
 	line("chain minimal 64 %d 40 uniform quiet want:finalized>=3,leak=0,forks=1", seed())
 	line("chain minimal@1,2,3,4 64 %d 48 uniform quiet want:finalized>=4,leak=0,forks=5", seed())
 	line("chain fast@1,1,2,3 64 %d 64 uniform sparse want:finalized=0,leak>=3,ejections>=1", seed())
-	line("chain fast@2,3,4,5 48 %d 96 uniform leak-recover want:leak>=2,finality_advances>=2,forks=5", seed())
+	line("chain fast@2,4,6,8 48 %d 120 uniform leak-recover want:leak>=2,finality_advances>=2,forks=5", seed())
 	line("chain fast@0,0,0,0 64 %d 40 mixed default mutants=7 want:forks=1,wd_part>=1", seed())
 	line("chain fast@0,0,1,n 64 %d 40 rich over want:forks=2,wd_part>=4", seed())
 	line("chain fast@1,2,3,4 32 %d 40 poor under mode=eth1 want:finalized=0,justified=0", seed())
